@@ -25,7 +25,7 @@ def profiles(nmax, dmax, nmin=1):
             yield ds
 
 
-def build(macro, depths, flavour=None, handler=None, lets=(), rich=False, readers=(), hpos=None, wrap=False, init_ev=False, gated=None, failop=None, hexpr_ev=False, err_after=False, capstep=False, err_defer_cap=False, init_form=None, cap0=False, estart=None):
+def build(macro, depths, flavour=None, handler=None, lets=(), rich=False, readers=(), hpos=None, wrap=False, init_ev=False, gated=None, failop=None, hexpr_ev=False, err_after=False, capstep=False, err_defer_cap=False, init_form=None, cap0=False, estart=None, errcap=False, init_block=False):
     """lets: iterable of (branch, is_mut); readers: iterable of (reader_branch, step>=1) where the capture of
     that branch-step snapshots every visible name; rich: every step >= 1 carries a capture, an error-side
     callback and a non-closure operand (C06); failop (Option flavour, sync): how a step fails — None (`=>` and_then) | "filter"
@@ -132,7 +132,10 @@ def build(macro, depths, flavour=None, handler=None, lets=(), rich=False, reader
                     err = "Err::<i32, i32>(e + 5000)"
                     if is_async:
                         err = "ready(%s)" % err
-                    items.append(Op("<=", [O("|e: i32| { ev(\"%d.%d.e\", &e); %s }" % (b, k, err))], deferred=True))
+                    ecb = "|e: i32| { ev(\"%d.%d.e\", &e); %s }" % (b, k, err)
+                    # errcap: the error-side callback of the step's FIRST action is a block capture too (a callable of the same
+                    # signature as the success-side capture on the second action: a name clash between them is silent at compile time)
+                    items.append(Op("<=", [B("ev0(\"c.%d.%d.0\"); move %s" % (k, b, ecb)) if (errcap and not is_async) else O(ecb)], deferred=True))
                     items.append(Op("=>", [main]))
                     items.append(Op("->", [O("lgf(\"%d.%d.o\")" % (b, k))]))
                 else:
@@ -162,7 +165,11 @@ def build(macro, depths, flavour=None, handler=None, lets=(), rich=False, reader
                 else:
                     items.append(Op("=>", [main], deferred=True))
         let = (name(b), lets[b]) if b in lets else None
-        branches.append(Branch(O(init(b)), items, let=let))
+        if init_block:
+            # the initial value is written as a block capture (evaluated up front, by the caller) — the branch's steps are what they are
+            branches.append(Branch(B("ev0(\"c.0.%d.9\"); %s" % (b, init(b))), items, let=let))
+        else:
+            branches.append(Branch(O(init(b)), items, let=let))
     h = None
     if handler:
         args = ", ".join("a%d: %s" % (i, "Option<i32>" if (wrap and not is_try and not is_async) else "i32") for i in range(n))
@@ -221,6 +228,13 @@ def build_gated(macro, depths, flavour, handler, mode, hexpr_ev=False):
             return "gated(%d, \"%s\", %d, %s)" % (gate_id(b, k), site, slot(b, k), val)
 
         items = []
+        if mode == "long0" and b == 0:
+            # branch 0's step 0 is a LONG chain: 20 instant operators behind its pending point (all of them belong to step 0)
+            for i in range(20):
+                if is_try:
+                    items.append(Op("|>", [O('|r: Result<i32, i32>| { ev("0.0.a%d", &r); r }' % i)]))
+                else:
+                    items.append(Op("|>", [O('|v: i32| { ev("0.0.a%d", &v); v }' % i)]))
         if mode == "cap0":
             # a block operand in step 0 of every branch: evaluated when the step starts, i.e. not before the first poll
             if is_try:
